@@ -740,3 +740,19 @@ Proof.
   pose proof (Hall 0%nat Hlen). pose proof (Hall (length blk - 1)%nat ltac:(lia)).
   unfold zlen in *. do 2 f_equal; lia.
 Qed.
+(** the block-wise chrom_offset is the number of table rows of the chromosomes before c:
+    the contract of indexes/chrom_offset read on the flat bin table *)
+Theorem chrom_offset_counts blocks c :
+  ValidBlocks blocks ->
+  chrom_offset blocks c = zlen (filter (fun x => bchrom x <? Z.of_nat c) (table blocks)).
+Proof.
+  intros HV. unfold chrom_offset, table.
+  rewrite <- (firstn_skipn c blocks) at 2. rewrite concat_app, filter_app.
+  rewrite (filter_all _ (concat (firstn c blocks))), (filter_none _ (concat (skipn c blocks))).
+  - now rewrite app_nil_r.
+  - intros x Hx. apply in_concat in Hx as [b0 [Hb0 Hx]]. apply In_nth_error in Hb0 as [j Hj].
+    rewrite nth_error_skipn in Hj. destruct (HV _ _ Hj) as [_ HT]. rewrite (tiled_chrom _ _ _ _ HT Hx). lia.
+  - intros x Hx. apply in_concat in Hx as [b0 [Hb0 Hx]]. apply In_nth_error in Hb0 as [j Hj].
+    apply nth_error_firstn_some in Hj as [Hj Hjl].
+    destruct (HV _ _ Hj) as [_ HT]. rewrite (tiled_chrom _ _ _ _ HT Hx). lia.
+Qed.
